@@ -360,13 +360,16 @@ class Doist(tyming.Tymist):
         For setting attributes on bound methods.
         """
 
-        if doers is None:
-            doers = self.doers
+        own = doers is None  # entering own .doers, not fresh doers of extend
+        if own:
+            doers = list(self.doers)  # copy since an enter context may extend or remove
             deeds = self.deeds
         else:
             deeds = deque()  # when doers is provided then don't use .deeds
 
         for doer in doers:
+            if own and doer not in self.doers:  # removed by an earlier enter context
+                continue
             try:
                 doer.done = False  # False at enter. False signals incomplete
             except AttributeError:  # when using bound method for generator function
@@ -1278,13 +1281,16 @@ class DoDoer(Doer):
         """
         # inject temp into file resources here if any
 
-        if doers is None:
-            doers = self.doers
+        own = doers is None  # entering own .doers, not fresh doers of extend
+        if own:
+            doers = list(self.doers)  # copy since an enter context may extend or remove
             deeds = self.deeds
         else:
             deeds = deque()
 
         for doer in doers:
+            if own and doer not in self.doers:  # removed by an earlier enter context
+                continue
             try:
                 doer.done = False  # False at enter. False signals incomplete
             except AttributeError:   # when using bound method for generator function
